@@ -330,38 +330,20 @@ fn c16facts(repo: &Path) -> Result<String, String> {
     };
     let c = find::func(&f, "concat", Some("ErasedList"))?;
     let ct = trace(&c.block);
-    let mut guard_of: Vec<(String, String)> = vec![]; // guard name -> who
-    let mut concat_trace = vec![];
-    for t in &ct {
-        match t {
-            Tok::Lock { recv, bound: Some(b), .. } => {
-                let w = who(recv, &[("self.0", "self"), ("other.0", "other"), ("new.0", "new")])
-                    .ok_or(format!("ErasedList::concat locks `{recv}`: {}", show(&ct)))?;
-                guard_of.push((b.clone(), w.clone()));
-                concat_trace.push(format!(".lock .{w}"));
-            }
-            Tok::Drop(n) => {
-                let w = guard_of
-                    .iter()
-                    .find(|(g, _)| g == n)
-                    .map(|(_, w)| w.clone())
-                    .ok_or(format!("ErasedList::concat drops `{n}`, not a guard: {}", show(&ct)))?;
-                concat_trace.push(format!(".unlock .{w}"));
-            }
-            Tok::Call { recv, method, .. } if method == "extend" => {
-                // raw.extend(&a): receiver must be the guard of `new`; the argument is read
-                let tgt = guard_of.iter().find(|(g, _)| g == recv).map(|(_, w)| w.as_str());
-                if tgt != Some("new") {
-                    return Err(format!("ErasedList::concat extends `{recv}`, not the new list: {}", show(&ct)));
-                }
-                concat_trace.push(".extend".to_string());
-            }
-            other => {
-                return Err(format!("ErasedList::concat: unexpected `{}` in {}", show(std::slice::from_ref(other)), show(&ct)));
-            }
+    struct AllIfs(Vec<syn::ExprIf>);
+    impl<'ast> Visit<'ast> for AllIfs {
+        fn visit_expr_if(&mut self, i: &'ast syn::ExprIf) {
+            self.0.push(i.clone());
+            syn::visit::visit_expr_if(self, i);
         }
     }
-    // which guard each `extend` reads from: the argument of the call
+    let locks_of = |toks: &[Tok]| -> Vec<String> {
+        toks.iter().filter_map(|t| if let Tok::Lock { recv, .. } = t { Some(recv.clone()) } else { None }).collect()
+    };
+    let mut cifs = AllIfs(vec![]);
+    cifs.visit_block(&c.block);
+    let same_if = cifs.0.iter().find(|i| norm(&i.cond) == "Arc::ptr_eq(&self.0,&other.0)");
+    /// which guard each `extend` reads from: the argument of the call
     struct ExtendArgs(Vec<String>);
     impl<'ast> Visit<'ast> for ExtendArgs {
         fn visit_expr_method_call(&mut self, m: &'ast syn::ExprMethodCall) {
@@ -373,19 +355,100 @@ fn c16facts(repo: &Path) -> Result<String, String> {
     }
     let mut ea = ExtendArgs(vec![]);
     ea.visit_block(&c.block);
-    let mut ea_it = ea.0.iter();
-    for t in concat_trace.iter_mut() {
-        if t == ".extend" {
-            let a = ea_it.next().ok_or("concat: extend without argument")?;
-            let w = guard_of
-                .iter()
-                .find(|(g, _)| g == a)
-                .map(|(_, w)| w.clone())
-                .ok_or(format!("ErasedList::concat extends from `{a}`, not a guard"))?;
-            *t = format!(".read .{w}");
+    let mut concat_trace: Vec<String> = vec![];
+    let concat_atomic;
+    if let Some(si) = same_if {
+        // both operands held: `if ptr_eq { lock self } else if self < other { lock self; lock other }
+        // else { lock other; lock self }`, then lock new, extend(&a), extend(b or a), nothing dropped early
+        let bad = |why: &str| format!("ErasedList::concat (both operands held): {why}; lock trace: {}", show(&ct));
+        let then_l = locks_of(&trace(&si.then_branch));
+        let (mid_l, else_l) = match &si.else_branch {
+            Some((_, e)) => match &**e {
+                syn::Expr::If(i2) if norm(&i2.cond) == "Arc::as_ptr(&self.0)<Arc::as_ptr(&other.0)" => {
+                    let e2 = match &i2.else_branch {
+                        Some((_, e)) => match &**e {
+                            syn::Expr::Block(b) => locks_of(&trace(&b.block)),
+                            _ => vec![],
+                        },
+                        None => vec![],
+                    };
+                    (locks_of(&trace(&i2.then_branch)), e2)
+                }
+                _ => return Err(bad("the else branch is not the address comparison")),
+            },
+            None => return Err(bad("no else branch")),
+        };
+        if then_l != ["self.0"] || mid_l != ["self.0", "other.0"] || else_l != ["other.0", "self.0"] {
+            return Err(bad(&format!("branches lock {then_l:?} / {mid_l:?} / {else_l:?}")));
+        }
+        let rest: Vec<&Tok> = ct.iter().skip_while(|t| !matches!(t, Tok::Lock { recv, .. } if recv == "new.0")).collect();
+        let all = locks_of(&ct);
+        if all.len() != 6 || all[5] != "new.0" {
+            return Err(bad("expected the five operand locks of the three branches, then lock(new.0)"));
+        }
+        let shape_ok = matches!(rest.as_slice(),
+            [Tok::Lock { bound: Some(g), .. }, Tok::Call { recv: r1, method: m1, .. }, Tok::Call { recv: r2, method: m2, .. }, tail @ ..]
+            if r1 == g && r2 == g && m1 == "extend" && m2 == "extend"
+               && tail.iter().all(|t| matches!(t, Tok::Drop(n) if n == g)));
+        if !shape_ok {
+            return Err(bad("after lock(new.0): expected two extends of the new list and at most its drop"));
+        }
+        if ct.iter().any(|t| matches!(t, Tok::Drop(n) if n == "a" || n == "b")) {
+            return Err(bad("an operand guard is dropped explicitly"));
+        }
+        if ea.0 != ["a", "b.as_deref().unwrap_or(&a)"] {
+            return Err(bad(&format!("the extends read {:?}", ea.0)));
+        }
+        concat_atomic = true;
+        concat_trace = [".lock .self", ".lock .other", ".lock .new", ".read .self", ".read .other", ".unlock .new"]
+            .iter()
+            .map(|s| s.to_string())
+            .collect();
+    } else {
+        concat_atomic = false;
+        let mut guard_of: Vec<(String, String)> = vec![]; // guard name -> who
+        for t in &ct {
+            match t {
+                Tok::Lock { recv, bound: Some(b), .. } => {
+                    let w = who(recv, &[("self.0", "self"), ("other.0", "other"), ("new.0", "new")])
+                        .ok_or(format!("ErasedList::concat locks `{recv}`: {}", show(&ct)))?;
+                    guard_of.push((b.clone(), w.clone()));
+                    concat_trace.push(format!(".lock .{w}"));
+                }
+                Tok::Drop(n) => {
+                    let w = guard_of
+                        .iter()
+                        .find(|(g, _)| g == n)
+                        .map(|(_, w)| w.clone())
+                        .ok_or(format!("ErasedList::concat drops `{n}`, not a guard: {}", show(&ct)))?;
+                    concat_trace.push(format!(".unlock .{w}"));
+                }
+                Tok::Call { recv, method, .. } if method == "extend" => {
+                    let tgt = guard_of.iter().find(|(g, _)| g == recv).map(|(_, w)| w.as_str());
+                    if tgt != Some("new") {
+                        return Err(format!("ErasedList::concat extends `{recv}`, not the new list: {}", show(&ct)));
+                    }
+                    concat_trace.push(".extend".to_string());
+                }
+                other => {
+                    return Err(format!("ErasedList::concat: unexpected `{}` in {}", show(std::slice::from_ref(other)), show(&ct)));
+                }
+            }
+        }
+        let mut ea_it = ea.0.iter();
+        for t in concat_trace.iter_mut() {
+            if t == ".extend" {
+                let a = ea_it.next().ok_or("concat: extend without argument")?;
+                let w = guard_of
+                    .iter()
+                    .find(|(g, _)| g == a)
+                    .map(|(_, w)| w.clone())
+                    .ok_or(format!("ErasedList::concat extends from `{a}`, not a guard"))?;
+                *t = format!(".read .{w}");
+            }
         }
     }
-    notes.push(format!("ErasedList::concat: {}", show(&ct)));
+    notes.push(format!("ErasedList::concat: both operands held = {concat_atomic}; {}", show(&ct)));
 
     let e = find::func(&f, "eq", Some("PartialEq for ErasedList"))?;
     let et = trace(&e.block);
@@ -483,10 +546,11 @@ fn c16facts(repo: &Path) -> Result<String, String> {
     }
     out.push_str("-/\nimport RotoV.Model.ListConc\nnamespace RotoV.Gen.C16\nopen RotoV.ListConc\n\n");
     out.push_str(&format!(
-        "def facts : Facts :=\n  {{ getUnderGuard := {}\n    ffiGetUnderGuard := {}\n    eqOrdered := {} }}\n\n",
+        "def facts : Facts :=\n  {{ getUnderGuard := {}\n    ffiGetUnderGuard := {}\n    eqOrdered := {}\n    concatAtomic := {} }}\n\n",
         b(get_under),
         b(ffi_under),
-        b(eq_ordered)
+        b(eq_ordered),
+        b(concat_atomic)
     ));
     out.push_str(&format!("def methodShapes : List (Method × Shape) :=\n  [{}]\n\n", shapes.join(", ")));
     out.push_str(&format!("def concatTrace : List LockTok :=\n  [{}]\n\n", concat_trace.join(", ")));
